@@ -86,7 +86,7 @@ impl DecodeBeatmap for Editor {
             EditorKey::Bookmarks => {
                 state.bookmarks = value
                     .split(',')
-                    .map(str::parse)
+                    .map(StrExt::parse_num)
                     .filter_map(Result::ok)
                     .collect();
             }
